@@ -42,6 +42,10 @@ pub enum VAct {
     },
     /// SettleFunding sent by the configured margin engine
     Settle,
+    /// SetOpen sent by the vAMM's owner (markets are paused and re-opened this way)
+    SetOpen {
+        open: bool,
+    },
     /// feed world
     Append {
         price: u128,
@@ -305,6 +309,7 @@ impl VWorld {
                 },
             ),
             VAct::Settle => self.exec("engine", &v, &VammExec::SettleFunding {}),
+            VAct::SetOpen { open } => self.exec("owner", &v, &VammExec::SetOpen { open: *open }),
             VAct::Blk { secs, ms } => {
                 self.tap.reset(None);
                 self.app.update_block(|b| {
